@@ -8,6 +8,7 @@ package zzverif
 // by the verifCfg* functions below (see the override table in vcheck).
 
 import (
+	"fmt"
 	"context"
 	"errors"
 	"strconv"
@@ -36,6 +37,9 @@ func verifUnknownMemberFunc(_ context.Context, resultCh chan<- checkgroup.Result
 }
 
 var errStorage = errors.New("verif: injected storage failure")
+
+// errStorageCancelled: errors.Is(err, context.Canceled) holds
+var errStorageCancelled = fmt.Errorf("verif: injected storage failure: query cancelled: %w", context.Canceled)
 
 // verifCheckAndAddVisited wraps graph.CheckAndAddVisited (the call below
 // reaches the original) and counts how often a subject set was skipped as
@@ -102,6 +106,12 @@ func (m *memStore) call() error {
 	if verifFailAt != 0 {
 		if verifCalls == verifFailAt || (verifPersistent && verifCalls > verifFailAt) {
 			verifFaults++
+			if verifFaultCancelled {
+				// what database/sql and the persister return for a query that was
+				// cancelled (by the driver, a proxy, a statement timeout): an error
+				// that wraps context.Canceled although the request is still live
+				return errStorageCancelled
+			}
 			return errStorage
 		}
 	}
